@@ -182,6 +182,30 @@ def run_item(item, acc):
                     "a_history": describe(new_states[-1]), "states": res.states, "transitions": res.transitions})
 
 
+def run_two_writers(item, acc):
+    """Two application threads (stdout and stderr writers) blocked on the same exhausted window while the
+    receiver keeps reading: both must finish (scenario body shared with C25; every placement explored)."""
+    from props import c25
+    from vmc import explore, sched as S
+    tier, scn = item
+    body = c25.make_body(scn)
+
+    def on_exec(ex):
+        acc.ev()
+        acc.validated += 1
+        acc.transitions += len(ex.points) + 1
+        if ex.outcome == "ok":
+            acc.nt(("two-writers", scn[1], scn[3], ex.value[1]))
+        v = c25.judge(scn, ex)
+        if v is not None and v[0].startswith("never-terminates"):
+            acc.violation("sender-stalls-although-reader-keeps-reading:two-writers-on-one-window",
+                          {"scn": scn, "why": v[1], "choices": ex.choices}, {"two_writers": scn, "choices": ex.choices})
+    res = explore.explore(body, 1 if tier == "quick" else 2, "delay", cap=3000, on_exec=on_exec,
+                          sched_kw={"step_budget": c25.STEP_BUDGET, "horizon": S.EPOCH + 600})
+    acc.states += 1
+    acc.count("two_writer_schedules", res.executions)
+
+
 def main(tier):
     ck = core.Check(PID, tier, "model_checking",
                     "BFS over event histories on a real ChannelPair per (W, P, injected state, ext codes) config; "
@@ -210,6 +234,10 @@ def main(tier):
     ck.extra["depth"] = depth
     ck.extra["depth_from_injected_states"] = inj_depth
     ck.merge(core.pmap(items, run_item))
+    from props import c25
+    tw = [(tier, ("open", call, c25.W + 1, to, "reader", None, True)) for call in ("sendall", "sendall_stderr")
+          for to in (None, 2.0)]
+    ck.merge(core.pmap(tw, run_two_writers))
     ck.exhaustive = False
     ck.caps.append("depth-bounded: frontier states left at the depth cap are counted in counters")
     for n in ck.acc.notes:
@@ -220,6 +248,14 @@ def main(tier):
 
 def replay(rec):
     r = rec["replay"]
+    if "two_writers" in r:
+        from props import c25
+        from vmc import explore, sched as S
+        scn = tuple(r["two_writers"])
+        ex = explore.replay(c25.make_body(scn), r["choices"], "delay", {"step_budget": c25.STEP_BUDGET, "horizon": S.EPOCH + 600})
+        v = c25.judge(scn, ex)
+        print(ex.outcome, ex.error, v)
+        return 1 if v else 0
     cfg = r["cfg"]
     inject = tuple(cfg[3]) if cfg[3] is not None else None
     st = chanflow.build((cfg[0], cfg[1], cfg[2], inject), [tuple(e) for e in r["history"]])
